@@ -168,6 +168,10 @@ func selfBounded(fn *ssa.Function) bool {
 }
 
 func runC05(c *Ctx, r *Report) {
+	r.Rule("C05/search-window", "prompt / response searches look at a suffix of the buffer that starts on a line boundary (else a line tail that looks like a prompt ends the operation early: success with partial output)", 4)
+	importObligations(r, func(sub *Report) { checkSearchDepth(c, sub) }, "C01/search-depth", "C05/search-window")
+	r.Rule("C05/fresh-operation", "channel.NewOperation and netconf.NewOperation hand every caller a freshly allocated options object (it carries the per-operation timeout)", 2)
+	checkFreshOperation(c, r, "C05/fresh-operation", []string{"channel", "driver/netconf"})
 	r.Rule("C05/error-classes", "each failure site named by the property wraps the sentinel the property names (timeout / auth / connection / privilege / NETCONF / operation / platform error)", 11)
 	checkErrorClasses(c, r, "C05")
 	r.Rule("C05/loops-cancellable", "every condition-less loop has an exit governed by ctx.Done/ctx.Err, the owner's done channel, the error of a bounded call, a counter bound or a socket read deadline", 12)
